@@ -52,7 +52,7 @@ Proof. split; reflexivity. Qed.
 
 Theorem process_set_literals :
   get (s"DocumentationAggregator.process_set") aggregator_strings = [[nl]; F; s" "; [dq]; [dq]]
-  /\ geti (s"DocumentationAggregator.process_set") aggregator_ints = [1; 0; 1; 1; 1; 1; 1; 0; 1; 1; 1].
+  /\ geti (s"DocumentationAggregator.process_set") aggregator_ints = [1; 0; 1; 1; 1; 1; 1; 2; 0; 1; 1; 1].
 Proof. split; reflexivity. Qed.
 
 Theorem process_option_literals :
